@@ -276,8 +276,11 @@ def depthN : Nat := 200
 structure OutSample where
   t : Nat
   weight : Nat
+  /-- cpu delta in ns as handed to `CpuDelta::from_nanos` (the profile stores `cpu / 1000` µs) -/
   cpu : Nat
   frames : List Frame
+  /-- ghost copy of `USample.synth` (off-CPU sample synthesized from a group); not printed -/
+  synth : Bool := false
 deriving Repr, DecidableEq
 
 /-- `LibMappingOpQueueIter::next_op_if_at_or_before` + `process_ops`: consume the queue prefix with
@@ -294,7 +297,8 @@ def flushBuffer (pm : List MapAdd) : List MapAdd → List (Nat × MapAdd) → Li
   | maps, q, u :: us =>
     let r := processOps maps q u.tmono
     let frames := convertStack r.1 pm u.stack
-    (u.th, { t := u.t, weight := 1, cpu := u.cpu, frames := depthLimit depthN frames u.stack.length })
+    (u.th, { t := u.t, weight := u.weight, cpu := u.cpu, frames := depthLimit depthN frames u.stack.length,
+             synth := u.synth })
       :: flushBuffer pm r.1 r.2 us
 
 /-- all buffers in the order `Processes::finish` flushes them: parked first, then live processes
